@@ -180,18 +180,47 @@ def raw_table(filename):
     """samples.csv read by an independent reader: header cells stripped, values as binary64"""
     with open(filename, newline="") as f:
         rows = list(_csv.reader(f))
+    with open(filename) as f:
+        lines = f.read().splitlines()
     return {"header": [h.strip() for h in rows[0]], "rows": [[fh(float(x)) for x in r] for r in rows[1:]],
+            "text": [[x.strip() for x in ln.split(",")] for ln in lines[1:]],
             "widths_ok": all(len(set(len(r[i]) for r in rows)) == 1 for i in range(len(rows[0])))}
+
+
+def raw_summary(filename):
+    """samples_summary.json read with the json module only: the two persisted samples as (key string, value) lists"""
+    with open(filename) as f:
+        d = json.load(f)
+
+    def smp(x):
+        if x is None:
+            return None
+        a = x["arguments"]
+        return {"ll": fh(a["log_likelihood"]), "lp": fh(a["log_prior"]), "w": fh(a["weight"]),
+                "kw": [[k, fh(v)] for k, v in a["kwargs"]["arguments"].items()]}
+    a = d["arguments"]
+    return {"max": smp(a.get("max_log_likelihood_sample")), "med": smp(a.get("median_pdf_sample"))}
 
 
 def make_samples(c, model):
     rows = c["rows"]
+    pls = [[unhex(x) for x in r["p"]] for r in rows]
+    lls = [unhex(r["ll"]) for r in rows]
+    lps = [unhex(r["lp"]) for r in rows]
+    ws = [unhex(r["w"]) for r in rows]
+    mode = c.get("numpy")
+    if mode == "scalar":        # what emcee / dynesty conversions hand over: numpy scalars
+        pls = [[np.float64(x) for x in r] for r in pls]
+        lls, lps, ws = [np.float64(x) for x in lls], [np.float64(x) for x in lps], [np.float64(x) for x in ws]
+    elif mode == "array":       # ... or whole arrays
+        pls = np.asarray(pls, dtype=np.float64).reshape(len(rows), -1)
+        lls, lps, ws = np.asarray(lls), np.asarray(lps), np.asarray(ws)
     sl = Sample.from_lists(
         model=model,
-        parameter_lists=[[unhex(x) for x in r["p"]] for r in rows],
-        log_likelihood_list=[unhex(r["ll"]) for r in rows],
-        log_prior_list=[unhex(r["lp"]) for r in rows],
-        weight_list=[unhex(r["w"]) for r in rows],
+        parameter_lists=pls,
+        log_likelihood_list=lls,
+        log_prior_list=lps,
+        weight_list=ws,
     )
     if c.get("cls") == "nest":
         info = {"total_iterations": len(rows), "time": 1.25, "log_evidence": unhex(c.get("logz", "0x0.0p+0")),
@@ -229,6 +258,25 @@ def db_read(ident, model):
 
 
 # --------------------------------------------------------------------------- cases
+class LatentAnalysis(af.Analysis):
+    """latent variables: one undotted and two dotted names, computed from the instance"""
+
+    def __init__(self, model):
+        super().__init__()
+        self.model = model
+
+    def log_likelihood_function(self, instance):
+        return 0.0
+
+    def compute_latent_variables(self, instance):
+        vals = [unhex(v) for _, v in flatten_instance(self.model, instance)]
+        return {"first": vals[0], "lat.last": vals[-1], "lat.twice": vals[0] + vals[0]}
+
+
+def latent_view(sample_list):
+    return [sample_json(s) for s in sample_list]
+
+
 def run_samples_case(c):
     priors = make_priors(c["npri"], c.get("kinds", ["u"]))
     model = build(c["tree"], priors)
@@ -238,13 +286,20 @@ def run_samples_case(c):
     tag = "case%d_%d" % (os.getpid(), c["idx"])
 
     # --- csv + info files, summary file
-    paths = af.DirectoryPaths(name=tag)
+    paths = af.DirectoryPaths(name=tag, unique_tag=tag)
     paths.model = model
+    paths.search = af.m.MockSearch()
     out["csv_save"] = attempt(lambda: paths.save_samples(samples) or True)
     if "ok" in out["csv_save"]:
         out["raw"] = attempt(lambda: raw_table(paths._samples_file))
         loaded = attempt(lambda: paths.samples)
         out["csv"] = view(loaded["ok"], model) if "ok" in loaded else {"load": loaded}
+        # a resumed fit persists what it loaded: load -> save -> load
+        if "ok" in loaded:
+            p2 = af.DirectoryPaths(name=tag + "_again", unique_tag=tag)
+            p2.model = model
+            again = attempt(lambda: p2.save_samples(loaded["ok"]) or p2.samples)
+            out["resave"] = view(again["ok"], model) if "ok" in again else {"load": again}
         # aggregator route: model comes back from model.json
         paths.save_json("model", to_dict(model))
         so = SearchOutput(paths.output_path)
@@ -255,18 +310,41 @@ def run_samples_case(c):
         else:
             out["agg"] = {"load": loaded}
     summary = attempt(lambda: samples.summary())
-    if "ok" in summary:
+    have_summary = "ok" in summary
+    if have_summary:
         summary = summary["ok"]
         out["summary_orig"] = view_summary(summary, model)
         out["summary_save"] = attempt(lambda: paths.save_samples_summary(summary) or True)
         if "ok" in out["summary_save"]:
+            out["summary_raw"] = attempt(lambda: raw_summary(paths._files_path / "samples_summary.json"))
             loaded = attempt(lambda: paths.load_samples_summary())
             out["summary"] = view_summary(loaded["ok"], model) if "ok" in loaded else {"load": loaded}
             so = SearchOutput(paths.output_path)
             loaded = attempt(lambda: so.samples_summary)
-            out["summary_agg"] = view_summary(loaded["ok"], so.model) if "ok" in loaded else {"load": loaded}
+            if "ok" in loaded:
+                out["summary_agg"] = view_summary(loaded["ok"], so.model)
+                out["summary_agg"]["shape"] = attempt(lambda: shape_ranked(so.model))
+            else:
+                out["summary_agg"] = {"load": loaded}
     else:
         out["summary_orig"] = {"load": summary}
+
+    # --- latent samples (computed by the real Analysis.compute_latent_samples)
+    latent = attempt(lambda: LatentAnalysis(model).compute_latent_samples(samples))
+    if "ok" in latent and latent["ok"] is not None:
+        latent = latent["ok"]
+        out["latent_orig"] = latent_view(latent.sample_list)
+        saved = attempt(lambda: paths.save_latent_samples(latent) or True)
+        if "ok" in saved:
+            out["latent_csv"] = attempt(lambda: latent_view(paths.load_latent_samples()))
+            so = SearchOutput(paths.output_path)
+            lo = attempt(lambda: so.latent_samples)
+            out["latent_agg"] = view(lo["ok"], lo["ok"].model, stats=False) if "ok" in lo else {"load": lo}
+        else:
+            out["latent_csv"] = saved
+    else:
+        latent = None
+        out["latent_error"] = True
 
     # --- database rows
     for name, save_all in (("db_all", True), ("db_min", False)):
@@ -278,12 +356,63 @@ def run_samples_case(c):
                 out["min_idx"] = sorted(ids.index(id(s)) for s in mini["ok"].sample_list)
                 out["min_orig"] = view(mini["ok"], model, stats=False)
         saved = attempt(lambda: dp.save_samples(samples) or True)
+        if have_summary and save_all:
+            out["db_summary_save"] = attempt(lambda: dp.save_samples_summary(summary) or True)
+        if latent is not None and not save_all:
+            lm = attempt(lambda: latent.minimise())
+            if "ok" in lm:
+                out["db_latent_orig"] = latent_view(lm["ok"].sample_list)
+            out["db_latent_save"] = attempt(lambda: dp.save_latent_samples(latent) or True)
         if "ok" in saved:
             ident = dp.identifier
             r = attempt(lambda: db_read(ident, model))
             out[name] = r["ok"] if "ok" in r else {"load": r}
+            if have_summary and save_all and "ok" in out["db_summary_save"]:
+                dp2 = db_paths(model, tag + name, save_all)      # a later session / process
+                lo = attempt(lambda: dp2.load_samples_summary())
+                if "ok" in lo and lo["ok"] is None:
+                    out["db_summary"] = {"load": {"exc": "NoSummary", "msg": "load_samples_summary returned None"}}
+                else:
+                    out["db_summary"] = view_summary(lo["ok"], model) if "ok" in lo else {"load": lo}
+            if latent is not None and not save_all and "ok" in out.get("db_latent_save", {}):
+                dp2 = db_paths(model, tag + name, save_all)
+                lo = attempt(lambda: latent_view(dp2.load_latent_samples().sample_list))
+                out["db_latent"] = lo
         else:
             out[name] = {"load": saved}
+
+    # --- directory scraped into a database (Aggregator.from_directory + Scraper): EfficientSamples over RELOADED samples
+    if "ok" in out["csv_save"] and c.get("scrape", True):
+        def scrape():
+            from autofit.database.aggregator.scrape import Scraper
+            paths.save_all()
+            paths.completed()
+            scraper = Scraper(paths.output_path, session(), completed_only=True)
+            items = list(scraper.aggregator)
+            assert len(items) == 1, "aggregator found %d outputs" % len(items)
+            scraper.scrape()
+            s = session()
+            s.commit()
+            s.expire_all()
+            return s.query(Fit).filter(Fit.id == items[0].id).one()
+        fit = attempt(scrape)
+        if "ok" in fit:
+            fit = fit["ok"]
+            lo = attempt(lambda: fit.samples)
+            if "ok" in lo and lo["ok"] is not None:
+                out["scrape"] = view(lo["ok"], lo["ok"].model)
+                out["scrape"]["shape"] = attempt(lambda: shape_ranked(lo["ok"].model))
+            else:
+                out["scrape"] = {"load": lo if "exc" in lo else {"exc": "NoSamples", "msg": "Fit.samples is None"}}
+            if have_summary and "ok" in out.get("summary_save", {}):
+                lo = attempt(lambda: fit["samples_summary"])
+                out["scrape_summary"] = view_summary(lo["ok"], fit.model) if "ok" in lo else {"load": lo}
+                if "ok" in lo:
+                    out["scrape_summary"]["shape"] = attempt(lambda: shape_ranked(fit.model))
+            if latent is not None:
+                out["scrape_latent"] = attempt(lambda: latent_view(fit.latent_samples.sample_list))
+        else:
+            out["scrape"] = {"load": fit}
     return out
 
 
@@ -296,6 +425,7 @@ def run_dbseq_case(c):
     first = make_samples({**c, "rows": c["rows"][: c["first"]]}, model)
     second = make_samples(c, model)
     out["orig"] = view(second, model)
+    out["first"] = view(first, model)
     dp = db_paths(model, tag, True)
     dp.save_samples(first)
     session().commit()
@@ -322,6 +452,7 @@ def run_fit_case(c):
 
     name = "fit%d_%d" % (os.getpid(), c["idx"])
     out = {"shape": shape_of(model, priors)}
+    np.random.seed(int(c.get("rng", 0)) % (2 ** 32))
 
     def go():
         search = af.Drawer(name=name, total_draws=c["draws"])
